@@ -196,7 +196,7 @@ let job_tsem (job : Sx.t) : string =
    (FreeLower.data_movement_zero_and) *)
 let job_frag (job : Sx.t) : string =
   let p = program (Stdlib.List.hd (Sx.args (Sx.field job "ast"))) in
-  let imp = Fragment.in_imp_fragment lfuel p in
+  let imp = Fragment.in_proved_fragment lfuel p in
   let k = match FreeLower.klower_main lfuel p with
     | Util.Ok _ -> "ok" | Util.Crash -> "crash" | Util.OutOfFuel -> "nofuel" in
   Printf.sprintf "(imp %d) (kfree %s)" (if imp then 1 else 0) k
